@@ -499,6 +499,9 @@ def special_hints():
         ('List[UGenDict[str,int]]', List[uc.UGenDict[str, int]]), ('Union[UGenDict[str,int],Dict[int,str]]', Union[uc.UGenDict[str, int], Dict[int, str]]),
         ('UGenDict[str,UGenList[int]]', uc.UGenDict[str, uc.UGenList[int]]),
         ('TBU', TBU), ('Optional[TBU]', Optional[TBU]), ('List[TBU]', List[TBU]), ('Dict[TBU,TB]', Dict[TBU, TB]),
+        # one type variable bound differently at two levels of a hint tree
+        ('UTagged[int]', uc.UTagged[int]), ('List[UTagged[int]]', List[uc.UTagged[int]]), ('Optional[UTagged[bytes]]', Optional[uc.UTagged[bytes]]),
+        ('UGenDict[str,UGenDict[int,bytes]]', uc.UGenDict[str, uc.UGenDict[int, bytes]]),
         ('UIntList', uc.UIntList), ('List[UIntList]', List[uc.UIntList]), ('Optional[UIntList]', Optional[uc.UIntList]),
         ('Dict[str,UIntList]', Dict[str, uc.UIntList]), ('Union[UIntList,str]', Union[uc.UIntList, str]),
         ('NTNT', NTNT), ('List[NTNT]', List[NTNT]), ('Union[NTNT,str]', Union[NTNT, str]),
